@@ -200,6 +200,8 @@ pub fn gen(c: &Chain, cfg: &Cfg, m: &Menu, rng: &mut Rng, kind: &str) -> Option<
         "airdrop_claim" => exec(if rng.chance(5, 6) { "airdrop" } else { &u }, "hub", json!({"k": "claim_airdrop", "airdrop_token_contract": "airtoken", "airdrop_contract": "airdropc", "airdrop_swap_contract": "airpair"}), json!([])),
         "airdrop_fab" => exec(&u, "airdrop", json!({"k": "fabricate_claim"}), json!([])),
         "ugi_hooks" => exec("updater", "hub", json!({"k": "update_global_index", "hooks": 1 + rng.below(2)}), json!([])),
+        "rew_swapdenom" => exec("owner", "reward", json!({"k": "update_swap_denom", "swap_denom": *rng.pick(&["usei", "ufor", "kusd"]), "is_add": rng.chance(2, 3)}), json!([])),
+        "rew_swap" => exec("dispatcher", "reward", json!({"k": "swap_to_reward_denom"}), json!([])),
         "index_update" => exec("dispatcher", "reward", json!({"k": "update_global_index"}), json!([])),
         "mint_b" => exec("hub", "bsei", json!({"k": "mint", "recipient": u, "amount": 1 + rng.below(m.amax)}), json!([])),
         "burn_b" => exec("hub", "bsei", json!({"k": "burn", "amount": amount(rng, tokbal(c, "bsei", "hub"), m.amax)}), json!([])),
